@@ -2209,20 +2209,39 @@ func runDecode(c *Ctx) error {
 	c.Res.Rule = "every decoder entry point (typed values, capped and uncapped strings, SkipString, the ClassAd receivers GetClassAd / GetClassAdWithMaxSize / GetClassAdRaw / GetClassAdRawBody / SkipClassAdRaw incl. the in-band secret marker, handshake length-prefixed records receiveMessage / exchangeKey / getIDString / getToken, the frame readers on raw wire bytes, claim-id and session-info text, crypto-state blobs, the shared-port hand-off header, address / version / inherit / watch parsers) fed messages from the wire grammar with one field mutated (length and count fields from the catalogue −1, 0, ±1, 2^31−1, 2^31, 2^32+5, 2^40, 2^62, −2^63; missing terminators; dropped / inserted fields; secret marker; NULL-string marker), cut into frames at random points, truncated or left without end-of-message, in both string modes, over a counting mock stream, a real keyless stream and a real keyed stream; capped readers against 10–400× their cap; a malformed stream of random bytes; distinct by op-sequence hash; non-trivial = some field or the framing deviates from a valid message"
 	var cases []Case
 	var jobs []childJob
+	lap := time.Now()
+	timed := func(name string) {
+		c.Res.Distribution["ms:"+name] = int(time.Since(lap) / time.Millisecond)
+		lap = time.Now()
+	}
 	for i := 0; i < c.Pick(700, 80000); i++ {
 		decodeAdCase(c, i, &cases)
 	}
+	timed("ad")
 	for i := 0; i < c.Pick(500, 50000); i++ {
 		decodeTypedCase(c, i, &cases)
 	}
+	timed("typed")
 	decodeCatalogue(c, &cases)
+	timed("catalogue")
 	decodeOversize(c, &cases)
+	timed("oversize")
 	decodeBudget(c, &cases)
+	timed("budget")
 	decodeHandshake(c, &cases, &jobs)
+	timed("handshake")
 	decodeGarbage(c, &cases)
+	timed("garbage")
 	decodeWire(c, &cases)
+	timed("wire")
 	decodeWireNoEnd(c, &cases, &jobs)
+	timed("wire-noend")
+	if err := decodeHandshakeAds(c); err != nil {
+		return err
+	}
+	timed("handshake-ads")
 	decodeLeaves(c, &cases)
+	timed("leaves")
 	// stack depth of the multi-frame reader
 	jobs = append(jobs, childJob{Label: "stack: 400000 empty partial frames then the end (2 MB on the wire)", Kind: "stack", K: 400000, InBytes: 5 * 400000})
 	if c.Thorough() {
@@ -2231,5 +2250,7 @@ func runDecode(c *Ctx) error {
 	if err := runChildJobs(c, jobs, &cases); err != nil {
 		return err
 	}
+	timed("child")
+	defer timed("oracle")
 	return diffBatch(c, "decode", cases, nil)
 }
